@@ -7,7 +7,7 @@
 use serde_json::{json, Value};
 
 /// Re-spellings of one string that a lenient reader or writer might take for "the same".
-pub const RESPELLINGS: [&str; 15] = ["slash->backslash", "backslash->slash", "upper", "lower", "first-letter-case", "trailing-space", "trailing-nul", "trailing-slash", "leading-dot-slash", "doubled-slash", "decomposed", "leading-space", "first-char+256", "last-char+256", "last-char+65536"];
+pub const RESPELLINGS: [&str; 18] = ["z->+00:00", "z->+02:00", "z->-14:00", "slash->backslash", "backslash->slash", "upper", "lower", "first-letter-case", "trailing-space", "trailing-nul", "trailing-slash", "leading-dot-slash", "doubled-slash", "decomposed", "leading-space", "first-char+256", "last-char+256", "last-char+65536"];
 /// Edits of an integer: wrap-around distances of the usual widths, neighbours, sign.
 pub const NUMBER_EDITS: [&str; 9] = ["+1", "-1", "negated", "+2^8", "+2^16", "+2^31", "+2^32", "-2^32", "+2^63"];
 /// A member's value moved to a second member whose *name* is a re-spelling of the first's, the
@@ -28,6 +28,15 @@ pub fn respell(cur: &str, kind: &str) -> Option<String> {
             let c = cur.as_bytes()[i] as char;
             let sw = if c.is_ascii_uppercase() { c.to_ascii_lowercase() } else { c.to_ascii_uppercase() };
             format!("{}{}{}", &cur[..i], sw, &cur[i + 1..])
+        }
+        // a time stamp written with an offset: the same instant (+00:00) or the same clock digits
+        // read somewhere else (another instant)
+        "z->+00:00" | "z->+02:00" | "z->-14:00" => {
+            let looks_like_time = cur.len() >= 20 && cur.ends_with('Z') && cur.as_bytes()[10] == b'T' && cur.as_bytes()[4] == b'-' && cur.as_bytes()[13] == b':';
+            if !looks_like_time {
+                return None;
+            }
+            format!("{}{}", &cur[..cur.len() - 1], &kind[3..])
         }
         // (internal, for "another value of the same shape") a hex text with another first digit
         "other-first-digit" => {
@@ -297,7 +306,7 @@ pub fn keeps_layout_content(name: &str, library_same: bool) -> bool {
         return true;
     }
     if ptr == "/expires" {
-        return matches!(kind, "lower" | "first-letter-case");
+        return matches!(kind, "lower" | "first-letter-case" | "z->+00:00");
     }
     let parts: Vec<&str> = ptr.split('/').collect();
     // "", "keys", <id>, ...
